@@ -1210,3 +1210,92 @@ def rule_HN_c(ctx):
             bad = "not evaluable lane-precisely: %s" % e
         ctx.ob(bad is None, inst, where, bad or "h := key; body = spec compression per input over the 64 bytes at the block offset with the counter lanes; output word i of input k stored at out[32k+4i], %d bytes" % (32 * N))
     ctx.floor("C hashN kernels", n, 6)
+
+
+def rule_HN_rust(ctx, F):
+    """Rust hashN kernels (rust_sse2/sse41 hash4, rust_avx2 hash8) as three straight-line MIR regions, lane-precise (twin of HNc):
+    before the block loop, the loop body at block index 1 of 3 (so that the flags_end branch is decided; the flag schedule and the
+    offsets are F8r's / TPmr's obligations), after the loop"""
+    import cvec
+    n = 0
+    for mod, fname, N in (("sse2", "hash4", 4), ("sse41", "hash4", 4), ("avx2", "hash8", 8)):
+        fn = F.fn("%s::%s" % (mod, fname))
+        if fn is None:
+            continue
+        n += 1
+        inst = "rust-hash-kernel:%s::%s" % (mod, fname)
+        T = Terms()
+        KEY = tuple(T.sym("key%d" % i) for i in range(8))
+        cells = [Cell(tuple(T.sym("in%d_w%d" % (k, i // 4)) if i % 4 == 0 else T.sym("in%d_b%d" % (k, i)) for i in range(64 * 4))) for k in range(N)]
+        outc = Cell(tuple(T.sym("out%d" % i) for i in range(32 * N)))
+        FL, FS, FE, CTR, INC = (T.sym(x) for x in ("flags", "flags_start", "flags_end", "counter", "increment_counter"))
+        seen = {}
+
+        def load_counters(se, a):
+            seen["lc"] = tuple(a)
+            return (cvec.LV([T.sym("ctr_lo%d" % k) for k in range(N)]), cvec.LV([T.sym("ctr_hi%d" % k) for k in range(N)]))
+
+        def transpose_msg(se, a):
+            inp, off = a
+            co = T.cval(off)
+            seen["tm"] = co
+            if co is None or not isinstance(inp, Ptr):
+                raise SymFail("transpose_msg_vecs with a non-constant offset")
+            return tuple(cvec.LV([cells[k].v[co + 4 * j] for k in range(N)]) for j in range(16))
+        ov = {"%s::load_counters" % mod: load_counters, "%s::transpose_msg_vecs" % mod: transpose_msg}
+        se = cvec.LaneSymExec(F, T, byte_cells=cells + [outc], overrides=ov)
+        # locate the loop: header = the block calling Range::next, body = the Some edge, exit = the None edge
+        hdr = [bi for bi, t in fn.calls() if "Iterator" in t["callee"].get("path", "") and t["callee"]["path"].endswith("::next")]
+        if len(hdr) != 1:
+            ctx.ob(False, inst, fn.loc, "expected one block loop (Range::next), found %d" % len(hdr))
+            continue
+        H = hdr[0]
+        sw = fn.blocks[fn.blocks[H]["term"]["t"]]["term"]
+        tg = dict(sw["targets"])
+        body_b, exit_b = tg.get(1), tg.get(0)
+        optl = fn.blocks[H]["term"]["dest"]["l"]
+        names = {v: k for k, v in fn.names.items()}
+        bad = None
+        try:
+            args = [Ptr(Cell(tuple(Ptr(c, (0,)) for c in cells))), T.const(3), Ptr(Cell(KEY)), CTR, INC, FL, FS, FE, Ptr(outc)]
+            frame = se.new_frame(fn, args)
+            r = se.run_from(fn, frame, 0, (H,))
+            hv = frame[names["h_vecs"]].v
+            if not (r == ("stop", H) and all(hv[i].l == [KEY[i]] * N for i in range(8)) and seen.get("lc") == (CTR, INC)):
+                bad = "before the loop: h_vecs[i] = set1(key[i]) and load_counters(counter, increment_counter): no"
+            Hs = [[T.sym("h%d_%d" % (i, k)) for k in range(N)] for i in range(8)]
+            frame[names["h_vecs"]].v = tuple(cvec.LV(Hs[i]) for i in range(8))
+            frame[names["block_flags"]].v = T.sym("block_flags")
+            frame[optl].v = (T.const(1),)
+            r = se.run_from(fn, frame, body_b, (H,))
+            hv = frame[names["h_vecs"]].v
+            if bad is None and (r != ("stop", H) or seen.get("tm") != 64):
+                bad = "the loop body does not load the block at offset block * BLOCK_LEN and return to the loop head"
+            for k in range(N):
+                if bad:
+                    break
+                m = [T.sym("in%d_w%d" % (k, 16 + j)) for j in range(16)]
+                v = spec_compress_pre(T, [Hs[i][k] for i in range(8)], m, T.sym("ctr_lo%d" % k), T.sym("ctr_hi%d" % k), T.const(64), T.sym("block_flags"))
+                d = first_diff(T, [hv[i].l[k] for i in range(8)], [T.xor(v[i], v[i + 8]) for i in range(8)])
+                if d:
+                    bad = "loop body, input %d word %d is %s ; spec %s" % ((k,) + d)
+            if bad is None and frame[names["block_flags"]].v != FL:
+                bad = "block_flags is not reset to flags at the end of the body"
+            se.cv.stores = []
+            frame[names["h_vecs"]].v = tuple(cvec.LV(Hs[i]) for i in range(8))
+            se.run_from(fn, frame, exit_b, ())
+            if bad is None:
+                for k in range(N):
+                    for i in range(8):
+                        if outc.v[32 * k + 4 * i] != Hs[i][k]:
+                            bad = "after the loop, out[%d] holds %s ; required word %d of input %d" % (32 * k + 4 * i, T.show(outc.v[32 * k + 4 * i])[:40], i, k)
+                            break
+                    if bad:
+                        break
+            if bad is None and (sum(4 * s[2] for s in se.cv.stores) != 32 * N or any(s[0] != id(outc) for s in se.cv.stores)):
+                bad = "the stores after the loop cover %d bytes, expected %d" % (sum(4 * s[2] for s in se.cv.stores), 32 * N)
+        except SymFail as e:
+            bad = "not evaluable lane-precisely: %s" % e
+        ctx.ob(bad is None, inst, fn.loc, bad or "h := key; body = spec compression per input with the counter lanes; output word i of input k stored at out[32k+4i], %d bytes" % (32 * N))
+    if F.cfg_flavour() == "pure":
+        ctx.floor("Rust hashN kernels", n, 3)
